@@ -54,7 +54,7 @@ fn convergence_case(st: &mut Stats, rng: &mut Rng) {
     let kf = frob(&d) * frob(&inv);
     let mk_rhs = |rng: &mut Rng| -> (Vec<f64>, Vec<f64>) {
         // right-hand sides of any scale: the planted solution (hence b) is scaled over 120 decades
-        let sc = *rng.pick(&[1.0, 1e8, 1e-8, 1e3, 1e-18, 1e-30, 1e-60, 1e30, 1e60]);
+        let sc = *rng.pick(&[1.0, 1e8, 1e-8, 1e3, 1e-18, 1e-30, 1e-60, 1e30, 1e60, 1e-80, 1e80]);
         let xs: Vec<f64> = (0..n).map(|_| rng.sym() * sc).collect();
         let b: Vec<f64> = (0..n).map(|i| (0..n).map(|j| d[i][j] * xs[j]).sum()).collect();
         (xs, b)
@@ -86,6 +86,12 @@ fn convergence_case(st: &mut Stats, rng: &mut Rng) {
                 let bound = 4.0 * (kf * (tol + drift) + 8.0 * n as f64 * kf * U) * norm2(&xd);
                 st.max(&format!("direct_agreement_over_bound:{}", sv.name()), if bound > 0.0 { err / bound } else { 0.0 });
                 if !(err <= bound) { st.violation(&format!("C09:{}:disagrees-with-direct", sv.name()), format!("||x-x_direct||={:e} > {:e}; x={:?} x_direct={:?}; {}", err, bound, x.vec, xd, desc())); }
+                // the budget only bounds the loop: exactly `it` iterations must suffice as well
+                if it > 0 && rng.chance(0.3) {
+                    let mut x4 = Vector::create(x0.clone());
+                    let r4 = catch(|| sv.call(&a, &bv, &mut x4, it, tol));
+                    if !matches!(r4, Outcome::Ok(Ok(k)) if k == it) || bits(&x4.vec) != bits(&x.vec) { st.violation(&format!("C09:{}:not-accepted-with-exact-budget", sv.name()), format!("converged in {} iterations under a generous budget, but max_iter = {} gives {:?}; {}", it, it, r4, desc())); }
+                }
                 st.count(&format!("converged:{}", sv.name()));
                 if n >= 2 { let mut h = hash_str(sv.name()); for t in sys.trip.iter().take(8) { h = hmix(h, t.2.to_bits()); } st.nontrivial(hmix(h, tol.to_bits())); }
             }
@@ -103,6 +109,56 @@ fn convergence_case(st: &mut Stats, rng: &mut Rng) {
             o => st.violation(&format!("C09:{}:panic", sv.name()), format!("{}; {}", o.describe(), desc())),
         }
         st.sample(|| desc());
+    }
+}
+
+/// zero right-hand side with a NON-zero guess: the well-posed system A x = 0 has the solution 0, the solvers measure the
+/// residual absolutely (||b|| := 1), so Ok must leave ||x|| <= ||A^-1|| (tol + drift)
+fn zero_rhs_case(st: &mut Stats, rng: &mut Rng) {
+    let n = rng.usize(1, 40);
+    let symmetric = rng.bool();
+    let margin = *rng.pick(&MARGINS);
+    let sys = gen_dominant(rng, n, symmetric, margin, false);
+    let d = sys.dense();
+    let a = match catch(|| sys.sparse(rng)) { Outcome::Ok(a) => a, _ => return };
+    let inv = match cp_inverse_real(&d) { Some(i) => i, None => { st.count("skipped:certificate-failed"); return; } };
+    let gs = *rng.pick(&[1.0, 1e2, 1e4, 1e6, 1e-3]);
+    let mk_guess = |rng: &mut Rng| -> Vec<f64> { (0..n).map(|_| rng.sym() * gs).collect() };
+    let x0 = mk_guess(rng);
+    // attainable requests only: the absolute residual cannot be pushed below u*||A||*||x0||
+    let floor = 1e4 * U * frob(&d) * gs * (n as f64).sqrt();
+    let tol = rng.logpos(1e-12, 1e-3).max(floor);
+    if tol > 1e-3 { st.count("skipped:zero-rhs-request-unattainable"); return; }
+    let bv = Vector::create(vec![0.0; n]);
+    for sv in SOLVERS {
+        if !applicable(sv, symmetric) { continue; }
+        if sv == Solver::Qmr && tol < QMR_MIN_TOL { continue; }
+        st.next_case();
+        let desc = || format!("solver={} zero-rhs-nonzero-guess class={} n={} margin={} tol={:e} max_iter={} x0={:?} triplets={:?}", sv.name(), sys.class, n, margin, tol, iter_cap(n), x0, sys.trip);
+        let mut x = Vector::create(x0.clone());
+        let out = catch(|| sv.call(&a, &bv, &mut x, iter_cap(n), tol));
+        st.eval();
+        match out {
+            Outcome::Ok(Ok(it)) => {
+                if !fl::all_finite(&x.vec) { st.violation(&format!("C09:{}:zero-rhs:ok-nonfinite", sv.name()), format!("x={:?}; {}", x.vec, desc())); continue; }
+                let drift = crate::mon::c08::drift_units(sv) * U * (it as f64 + 1.0) * frob(&d) * norm2(&x0).max(norm2(&x.vec));
+                let bound = 4.0 * frob(&inv) * (tol + drift);
+                st.max(&format!("zero_rhs_norm_over_bound:{}", sv.name()), norm2(&x.vec) / bound);
+                if !(norm2(&x.vec) <= bound) { st.violation(&format!("C09:{}:zero-rhs:disagrees-with-direct", sv.name()), format!("A x = 0 has the solution 0, but Ok({}) left ||x|| = {:e} > ||A^-1||_F (tol + drift) = {:e} (true absolute residual {:e}); x={:?}; {}", it, norm2(&x.vec), bound, crate::mon::c08::true_resid(&d, &x.vec, &vec![0.0; n]), x.vec, desc())); }
+                st.count(&format!("zero-rhs-converged:{}", sv.name()));
+                if n >= 2 { let mut h = hash_str(sv.name()) ^ 0x5a; for t in sys.trip.iter().take(8) { h = hmix(h, t.2.to_bits()); } st.nontrivial(hmix(h, tol.to_bits())); }
+            }
+            Outcome::Ok(Err(e)) => {
+                let mut fails = 0;
+                for _ in 0..3 {
+                    let mut xx = Vector::create(mk_guess(rng));
+                    if !matches!(catch(|| sv.call(&a, &bv, &mut xx, iter_cap(n), tol)), Outcome::Ok(Ok(_))) { fails += 1; }
+                }
+                if fails >= 2 { st.violation(&format!("C09:{}:zero-rhs:no-convergence", sv.name()), format!("Err({:e}) within {} iterations and {} of 3 fresh guesses fail too; {}", e, iter_cap(n), fails, desc())); }
+                else { st.count(&format!("isolated-breakdown:{}", sv.name())); }
+            }
+            o => st.violation(&format!("C09:{}:zero-rhs:panic", sv.name()), format!("{}; {}", o.describe(), desc())),
+        }
     }
 }
 
@@ -148,9 +204,9 @@ fn degenerate_case(st: &mut Stats, rng: &mut Rng) {
 
 pub fn run(ctx: &Ctx) -> Report {
     let units = ctx.vol(30_000, 1_200_000);
-    let stats = par_run(ctx, TAG, units, |_u, rng, st| { for _ in 0..3 { convergence_case(st, rng); } degenerate_case(st, rng); degenerate_case(st, rng); });
+    let stats = par_run(ctx, TAG, units, |_u, rng, st| { for _ in 0..3 { convergence_case(st, rng); } degenerate_case(st, rng); degenerate_case(st, rng); zero_rhs_case(st, rng); });
     let mut rep = Report::new(stats,
-        "certified well-posed systems of order 1..60: symmetric strictly diagonally dominant with positive diagonal (SPD; all five variants) and strictly row-dominant nonsymmetric with mixed-sign diagonal (BiCG both error measures, BiCGSTAB, QMR), dominance margins {0.02,0.1,0.5,2}, global matrix scales 1e+-3, 2^+-70, 2^+-100, rhs from a planted solution of scale 1, 1e3, 1e+-8, 1e-18, 1e+-30, 1e+-60, x0 zero/random/scaled, tol log-uniform 1e-12..1e-3 (QMR demanded for tol>=1e-8 only), budget 10n+100, shuffled triplets. Judged: Ok within the budget, finite x, agreement with Matrix::solve_basic within kappa_F*(tol+drift). Degenerate starts on integer data: exact initial guess (b=A*x0 exactly) and zero rhs with zero guess must be accepted (Ok), x finite and still a solution. Non-trivial: n>=2 and a judged Ok/degenerate outcome; distinct = distinct (solver,entries,tol) hashes");
+        "certified well-posed systems of order 1..60: symmetric strictly diagonally dominant with positive diagonal (SPD; all five variants) and strictly row-dominant nonsymmetric with mixed-sign diagonal (BiCG both error measures, BiCGSTAB, QMR), dominance margins {0.02,0.1,0.5,2}, global matrix scales 1e+-3, 2^+-70, 2^+-100, rhs from a planted solution of scale 1, 1e3, 1e+-8, 1e-18, 1e+-30, 1e+-60, x0 zero/random/scaled, tol log-uniform 1e-12..1e-3 (QMR demanded for tol>=1e-8 only), budget 10n+100, shuffled triplets. Judged: Ok within the budget, finite x, agreement with Matrix::solve_basic within kappa_F*(tol+drift). Zero right-hand side with a non-zero guess (scales 1e-3..1e6, attainable tolerances only): Ok must leave ||x|| within ||A^-1||_F (tol + drift) of the solution 0. Budget metamorphism: a run that converged in k iterations is repeated with max_iter = k and must answer Ok(k) with the same x. Degenerate starts on integer data: exact initial guess (b=A*x0 exactly) and zero rhs with zero guess must be accepted (Ok), x finite and still a solution. Non-trivial: n>=2 and a judged Ok/degenerate outcome; distinct = distinct (solver,entries,tol) hashes");
     rep.assumptions = vec![
         "iteration cap 10n+100 (measured worst 3.4*(n+10) over 1.5 M solves)".into(),
         "a convergence failure is reported only if at least 2 of 3 fresh right-hand sides on the same matrix fail too (isolated Lanczos breakdowns are logged, not flagged)".into(),
